@@ -1396,6 +1396,7 @@ def run(ctx):
                 return
 
     vlib.standard_proof_step(ctx, targets, props, search)
+    ctx.log("proof step done")
 
     # ---- correspondence: corpus, fixed witness, random
     n_sc = 240 if ctx.quick else 2400
@@ -1408,6 +1409,7 @@ def run(ctx):
     while len(cases) < n_sc:
         cases.append(gen_case(rng, malformed=(len(cases) % 4 == 3)))
     impls = compare_scripted(ctx, cases, "a")
+    ctx.log("correspondence done: %d scripted cases" % len(cases))
     dist = {"scripted_status": {}, "scripted_collapses": {}, "scripted_malformed": 0,
             "system_kind": {}, "method": {}}
     for c, r in zip(cases, impls):
@@ -1521,10 +1523,17 @@ def explore_ensemble(ctx, rng):
     e = [qutip.sigmaz(), qutip.sigmax()]
     nt = 150 if ctx.quick else 1500
     for improved in (False, True):
-        res = qutip.mcsolve(H, qutip.basis(2, 0), tl, cs, e_ops=e, ntraj=nt,
-                            seeds=rng.randrange(1 << 30),
-                            options={"progress_bar": "", "improved_sampling": improved,
-                                     "method": "vern7"})
+        try:
+            res = qutip.mcsolve(H, qutip.basis(2, 0), tl, cs, e_ops=e, ntraj=nt,
+                                seeds=rng.randrange(1 << 30),
+                                options={"progress_bar": "", "improved_sampling": improved,
+                                         "method": "vern7"})
+        except Exception as ex:      # noqa
+            ctx.violation("mcsolve:ensemble-vs-mesolve", "raised:" + type(ex).__name__,
+                          "exploration: mcsolve(improved_sampling=%s) raised %s: %s"
+                          % (improved, type(ex).__name__, str(ex)[:120]),
+                          {"kind": "ensemble", "improved": improved})
+            continue
         me = qutip.mesolve(H, qutip.basis(2, 0), tl, cs, e_ops=e)
         worst = 0.0
         for a, s, b in zip(res.average_expect, res.std_expect, me.expect):
